@@ -493,14 +493,15 @@ package engine
 
 
 // ---- search.go: instruction semantics; each returns a fresh state of the same attempt ----
-//@ func matchLiteral [C03 C09 C10]
+//@ func matchCharClass [C03 C09 C10]
 //@   requires cellOk(current_state)
+//@   presumes ast.ClassAny <= i.Class && i.Class <= ast.ClassWholeWord
 //@   let c0 := *current_state
 //@   let d0 := rdData(current_state.reader)
 //@   modifies inferred
 //@   ensures step: cellOk(result) && frozen(result, c0) && rdData(result.reader) == d0
 
-//@ func matchCharClass [C03 C09 C10]
+//@ func matchLiteral [C03 C09 C10]
 //@   requires cellOk(current_state)
 //@   let c0 := *current_state
 //@   let d0 := rdData(current_state.reader)
